@@ -69,7 +69,7 @@ def stepPure (toks : List String) : String :=
 
 def step (st : DState) (line : String) : DState × String :=
   match (line.dropEndWhile (· == '\n')).toString.splitOn " " with
-  | ["n", "reset", sdh] => ({ st with node := { client := { sdh := sdh == "1" } } }, "ok")
+  | ["n", "reset", sdh] => ({ st with node := { client := { sdh := sdh.startsWith "1" } } }, "ok")   -- a trailing letter: how the builder was used
   | ["n", "assert-empty"] =>
     let c := st.node.client
     let sv := st.node.server
